@@ -17,7 +17,7 @@ type Rng struct{ *rand.Rand }
 
 func NewRng(seed int64) *Rng { return &Rng{rand.New(rand.NewSource(seed))} }
 
-func (r *Rng) Pick(n int) int { return r.Intn(n) }
+func (r *Rng) Pick(n int) int        { return r.Intn(n) }
 func (r *Rng) Chance(p float64) bool { return r.Float64() < p }
 
 // ---------- Coq term printing ----------
@@ -55,17 +55,18 @@ func CoqBool(b bool) string {
 
 // CaseFile collects cases for one coqc run; shards are written as Cases_<k>.v
 type CaseWriter struct {
-	dir     string
-	imports string // Require lines
-	prelude string // definitions placed before the cases (e.g. the checker to use)
-	caseTy  string
-	checkIM string // Coq function name: case -> bool  (true = model agrees with implementation)
-	checkIS string // Coq function name: case -> bool  (true = implementation satisfies the spec side)
-	idOf    string // Coq function: case -> N
-	shard   int
-	per     int
-	cur     []string
-	files   []string
+	dir      string
+	imports  string // Require lines
+	prelude  string // definitions placed before the cases (e.g. the checker to use)
+	epilogue string // commands placed after bad_im/bad_is (e.g. counts of skipped cases; tools/check.py reads `c01_counts`-style lists named in PROP["count_lists"])
+	caseTy   string
+	checkIM  string // Coq function name: case -> bool  (true = model agrees with implementation)
+	checkIS  string // Coq function name: case -> bool  (true = implementation satisfies the spec side)
+	idOf     string // Coq function: case -> N
+	shard    int
+	per      int
+	cur      []string
+	files    []string
 }
 
 func NewCaseWriter(dir, imports, caseTy, idOf, checkIM, checkIS string, perShard int) *CaseWriter {
@@ -100,6 +101,7 @@ func (w *CaseWriter) Flush() {
 	fmt.Fprintf(&b, "Definition bad_im := Eval vm_compute in map %s (filter (fun c => negb (%s c)) cases).\n", w.idOf, w.checkIM)
 	fmt.Fprintf(&b, "Definition bad_is := Eval vm_compute in map %s (filter (fun c => negb (%s c)) cases).\n", w.idOf, w.checkIS)
 	b.WriteString("Print bad_im.\nPrint bad_is.\n")
+	b.WriteString(w.epilogue)
 	p := filepath.Join(w.dir, name)
 	if err := os.WriteFile(p, []byte(b.String()), 0o644); err != nil {
 		panic(err)
@@ -111,12 +113,12 @@ func (w *CaseWriter) Flush() {
 // ---------- run summary handed to the python driver ----------
 
 type GoViolation struct {
-	CaseID   int               `json:"case_id"`
-	What     string            `json:"what"`
-	Sig      string            `json:"signature"`
-	Human    map[string]any    `json:"human"`
-	Expected string            `json:"expected_S"`
-	Observed string            `json:"observed_I"`
+	CaseID   int            `json:"case_id"`
+	What     string         `json:"what"`
+	Sig      string         `json:"signature"`
+	Human    map[string]any `json:"human"`
+	Expected string         `json:"expected_S"`
+	Observed string         `json:"observed_I"`
 }
 
 type Summary struct {
